@@ -194,6 +194,20 @@ fn pfailsafe_read_all(stream: &[u8], mode: FailSafeReaderDecryptionMode) -> Vec<
         let other = pfailsafe_read_all_with(stream, mode, bufsz);
         assert!(other == first, "fail-safe read with {bufsz}-byte buffers returned {} bytes, with 70000-byte buffers {} bytes", other.len(), first.len());
     }
+    // ... and through the other entry points of `Read` the block parser uses (`read_exact` of header-sized pieces, which start at and
+    // straddle chunk boundaries; `read_to_end`): the same bytes, never more
+    for piece in [1usize, 17] {
+        let mut out = Vec::new();
+        if let Ok(mut r) = EncryptionLayerFailSafeReader::new(Box::new(RawLayerFailSafeReader::new(stream)), &pcfg(mode)) {
+            let mut b = vec![0u8; piece];
+            while r.read_exact(&mut b).is_ok() { out.extend_from_slice(&b); }
+        }
+        assert!(out.len() <= first.len() && out[..] == first[..out.len()] && out.len() + piece > first.len(),
+            "fail-safe read through read_exact({piece}) returned {} bytes, through read() {} bytes -- or different ones", out.len(), first.len());
+    }
+    let mut out = Vec::new();
+    if let Ok(mut r) = EncryptionLayerFailSafeReader::new(Box::new(RawLayerFailSafeReader::new(stream)), &pcfg(mode)) { let _ = r.read_to_end(&mut out); }
+    assert!(out == first, "fail-safe read through read_to_end returned {} bytes, through read() {} bytes", out.len(), first.len());
     first
 }
 fn pfailsafe_read_all_with(stream: &[u8], mode: FailSafeReaderDecryptionMode, bufsz: usize) -> Vec<u8> {
